@@ -24,7 +24,7 @@ def _judge(run):
 
 from ..scenario import Objective  # noqa: E402
 
-P = ScenarioProperty(PROP, {"observe_intermittently": True, "families": Objective.FAMILIES + ["infpit"]}, lambda sc: [C04Checker(sc)], _judge, quick=1600, thorough=30000, machine={})
+P = ScenarioProperty(PROP, {"observe_intermittently": True, "allow_cache": True, "families": Objective.FAMILIES + ["infpit"]}, lambda sc: [C04Checker(sc)], _judge, quick=1600, thorough=30000, machine={})
 
 
 def run_shard(tier, seed, shard, nshards, tally, scale=1.0):
